@@ -212,18 +212,26 @@ def run(ck: Check) -> int:
                 outs = []
                 for rep in range(5):
                     sr.evaluations += 1
+                    kw = {} if ex is None else {'exclude': ex}
+                    isb = isinstance(pats[0], bytes)
                     try:
-                        kw = {} if ex is None else {'exclude': ex}
                         m_ = mod.compile(pats, flags=fl, limit=lim, **kw)
-                        isb = isinstance(pats[0], bytes)
                         ans = [bool(m_.match(n.encode() if isb else n)) for n in names]
-                        one = [bool((mod.globmatch if mod is G else mod.fnmatch)(n.encode() if isb else n, pats, flags=fl, limit=lim, **kw)) for n in names]
-                        outs.append(('ok', m_, hash(m_), len(m_._matcher._include), len(m_._matcher._exclude or ()), ans, one))
+                        rec = ['ok', m_, hash(m_), len(m_._matcher._include), len(m_._matcher._exclude or ()), ans]
                     except Exception as e:  # noqa: BLE001
-                        outs.append((type(e).__name__,))
+                        rec = [type(e).__name__, None, None, None, None, None]
+                    # the one-shot entry point with the same arguments, judged on its own (each of these calls is another repetition)
+                    one = []
+                    for n in names:
+                        try:
+                            one.append(bool((mod.globmatch if mod is G else mod.fnmatch)(n.encode() if isb else n, pats, flags=fl, limit=lim, **kw)))
+                        except Exception as e:  # noqa: BLE001
+                            one.append(type(e).__name__)
+                    outs.append(tuple(rec) + (one,))
                 first = outs[0]
                 for k_, o in enumerate(outs[1:], 2):
-                    same = (o[0] == first[0]) and (o[0] != 'ok' or (o[1] == first[1] and o[2] == first[2] and o[3:] == first[3:]))
+                    same = (o[0] == first[0]) and (o[0] != 'ok' or (o[1] == first[1] and o[2] == first[2])) and o[3:] == first[3:]
+                    same = same and (first[0] != 'ok' or first[6] == first[5])          # the one-shot calls answer what the compiled object answers
                     if not same:
                         ck.report(Failing(f'{mod.__name__.split(".")[-1]}: the same compile / match call, repetition #{k_}, differs from the first one',
                                           {'api': mod.__name__ + '.compile', 'patterns': [repr(x) for x in pats], 'exclude': ex and [repr(x) for x in ex], 'flags': fl, 'limit': lim,
